@@ -22,6 +22,26 @@ pub enum Ty {
     NonNull(Box<Ty>),  // inner is Named or List
 }
 
+/// one of the 4 (depth 1) / 12 (depth 2) list shapes, with symbolic names and location tags
+fn gen_shape<S: Src>(s: &mut S, shape: u8) -> Ty {
+    let name = s.u8();
+    let loc = s.u8();
+    let loc2 = s.u8();
+    s.assume(name < 2 && loc < 2 && loc2 < 2);
+    let named = Ty::Named(name);
+    let nn_named = Ty::NonNull(Box::new(Ty::Named(name)));
+    match shape {
+        0 => named,
+        1 => nn_named,
+        2 => Ty::List(Box::new(named), loc),
+        3 => Ty::NonNull(Box::new(Ty::List(Box::new(named), loc))),
+        4 => Ty::List(Box::new(nn_named), loc),
+        5 => Ty::NonNull(Box::new(Ty::List(Box::new(nn_named), loc))),
+        6 => Ty::List(Box::new(Ty::List(Box::new(named), loc2)), loc),
+        _ => Ty::NonNull(Box::new(Ty::List(Box::new(Ty::NonNull(Box::new(Ty::List(Box::new(nn_named), loc2)))), loc))),
+    }
+}
+
 fn gen_ty<S: Src>(s: &mut S, depth: u32) -> Ty {
     let kind = s.u8();
     let name = s.u8();
@@ -114,6 +134,21 @@ pub fn incompatible_types_rejected<S: Src>(s: &mut S) {
     assert!(!api_satisfies(&vd, &ld));
 }
 
+/// shape-indexed variants (concrete list shape, symbolic names and locations)
+pub fn shape_print<S: Src>(s: &mut S, a: u8) {
+    let t = gen_shape(s, a);
+    let decl = TypeAnnotationDeclaration::from_graphql_type_annotation(to_gql(&t));
+    let printed = graphql_type_annotation_from_type_annotation(&decl);
+    assert!(denotes(&printed, &t));
+}
+pub fn shape_compat<S: Src>(s: &mut S, a: u8, b: u8) {
+    let v = gen_shape(s, a);
+    let l = gen_shape(s, b);
+    let vd = TypeAnnotationDeclaration::from_graphql_type_annotation(to_gql(&v));
+    let ld = TypeAnnotationDeclaration::from_graphql_type_annotation(to_gql(&l));
+    assert!(api_satisfies(&vd, &ld) == compatible(&v, &l));
+}
+
 pub fn canary_types<S: Src>(s: &mut S) {
     let v = gen_ty(s, DEPTH);
     let l = gen_ty(s, DEPTH);
@@ -144,6 +179,12 @@ mod proofs {
     #[kani::proof]
     #[kani::unwind(5)]
     fn incompatible_types_rejected() { super::incompatible_types_rejected(&mut KaniSrc) }
+    #[kani::proof]
+    #[kani::unwind(5)]
+    fn shape_print_3() { super::shape_print(&mut KaniSrc, 3) }
+    #[kani::proof]
+    #[kani::unwind(5)]
+    fn shape_compat_2_2() { super::shape_compat(&mut KaniSrc, 2, 2) }
     #[kani::proof]
     #[kani::unwind(5)]
     fn canary_types() { super::canary_types(&mut KaniSrc) }
